@@ -42,6 +42,7 @@ type hSim struct {
 	secrets   []string                       // marker values that must never reach the user agent
 	stored    map[string]*oidc.TokenResponse // sid -> tokens last stored successfully (ghost)
 	kept      []keptResp                     // answers already returned, re-examined after later requests
+	consumed  map[string]bool                // sid -> its login state was used by a completed code exchange
 	life      map[string]*sessLife           // sid -> ghost of the session's lifetime (absolute / idle timeouts)
 	stop      bool
 	schedMode bool // interleaved run: the after-logout monitor lives in the scheduler scenario
@@ -62,7 +63,7 @@ type keptResp struct {
 }
 
 func newHSim(r *Run, c hCfg) *hSim {
-	s := &hSim{r: r, w: newHWorld(c), issued: map[string]*issue{}, life: map[string]*sessLife{}, cookieIDs: map[string]bool{}, idpTokens: map[string]bool{},
+	s := &hSim{r: r, w: newHWorld(c), issued: map[string]*issue{}, consumed: map[string]bool{}, life: map[string]*sessLife{}, cookieIDs: map[string]bool{}, idpTokens: map[string]bool{},
 		lastRT: map[string]string{}, loggedOut: map[string]bool{}, stored: map[string]*oidc.TokenResponse{}}
 	s.secrets = append(s.secrets, c.Secret)
 	s.w.emitPrelude(r)
@@ -254,6 +255,8 @@ func (s *hSim) monitor(q hReq, o hObs) {
 			g.last = o.Now
 		}
 		if g.dead && isOK {
+			s.violate("C10", "a session was honoured although it had outlived its idle or absolute session timeout when it was presented",
+				map[string]any{"request": q, "sid": sid, "created": g.created, "last_presented_before": g.last, "now": o.Now, "absolute": c.Abs.String(), "idle": c.Idle.String()})
 			s.violate("C01", "OK for a session that had outlived its idle or absolute session timeout when it was presented",
 				map[string]any{"request": q, "sid": sid, "created": g.created, "last_presented_before": g.last, "now": o.Now, "absolute": c.Abs.String(), "idle": c.Idle.String()})
 		}
@@ -287,6 +290,12 @@ func (s *hSim) monitor(q hReq, o hObs) {
 			s.violate("C01", "OK without tokens read from the store under the presented session id", map[string]any{"request": q, "sid": sid})
 		default:
 			bound := lastGetTok.GotTok
+			if len(o.IDP) > 0 && (q.IDP.Kind != "body" || !strings.EqualFold(q.IDP.TokenType, "bearer")) {
+				// "just refreshed" needs a token response: an answer without the (required) bearer token_type - e.g. an OAuth
+				// error object sent with status 200 - renewed nothing
+				s.violate("C01", "OK after a refresh exchange that the token endpoint did not answer with a token response", map[string]any{"request": q, "idp_answer": q.IDP})
+				s.violate("C11", "a refresh exchange that was not answered with a token response was treated as successful", map[string]any{"request": q, "idp_answer": q.IDP})
+			}
 			if len(o.IDP) > 0 { // refreshed during this check
 				if len(setToks) != 1 || setToks[0].Err || setToks[0].ID != sid {
 					s.violate("C01", "OK after a refresh whose result was not stored successfully under the presented session", map[string]any{"request": q})
@@ -382,8 +391,19 @@ func (s *hSim) monitor(q hReq, o hObs) {
 			case rec.Auth != "Basic "+base64.StdEncoding.EncodeToString([]byte(c.ClientID+":"+c.Secret)):
 				s.violate("C04", "the code exchange did not carry the client's credentials", map[string]any{"request": q})
 			}
+			// the login state is single-use: once a callback of this session completed (sequentially: before this request
+			// started), no further code goes to the token endpoint for it - whichever replica serves the replay
+			if s.consumed[sid] && !s.schedMode {
+				s.violate("C04", "a code was sent to the token endpoint for a login state that an earlier, completed callback had already consumed (replay)", map[string]any{"request": q, "sid": sid})
+			}
 		case "refresh_token":
-			if want, ok := s.lastRT[sid]; !ok || rec.Form.Get("refresh_token") != want {
+			// (two refreshes of one session that overlap both read the same stored refresh token: in scheduled runs "most recent"
+			// is judged by what the thread read from the store - lastGetTok - not by the order in which threads finished)
+			want, ok := s.lastRT[sid]
+			if s.schedMode && lastGetTok != nil && lastGetTok.GotTok != nil {
+				want, ok = lastGetTok.GotTok.RefreshToken, true
+			}
+			if !ok || rec.Form.Get("refresh_token") != want {
 				s.violate("C11", "the refresh exchange did not use the most recently issued refresh token of the session", map[string]any{"request": q, "sent": rec.Form.Get("refresh_token"), "latest": want})
 			}
 			if rec.Form.Get("client_id") != c.ClientID || rec.Form.Get("client_secret") != c.Secret {
@@ -398,6 +418,16 @@ func (s *hSim) monitor(q hReq, o hObs) {
 	}
 	if len(o.IDP) > 1 {
 		s.violate("C11", "more than one token request during one check", map[string]any{"request": q})
+	}
+	if len(o.IDP) == 1 && o.IDP[0].Form.Get("grant_type") == "authorization_code" && len(setToks) == 1 && !setToks[0].Err && sid != "" {
+		s.consumed[sid] = true
+	}
+	// C11: expired tokens + a refresh token => the exchange is ATTEMPTED (refresh tokens are opaque: whatever they look like)
+	if lastGetTok != nil && lastGetTok.GotTok != nil && lastGetTok.ID == sid && !anyFault && len(o.IDP) == 0 && !q.NoHTTP &&
+		lastGetTok.GotTok.RefreshToken != "" && !s.fresh(lastGetTok.GotTok, o.Now) && !(c.Logout && pathPart(q.Path) == c.LogoutPath) {
+		if pt, err := oidc.ParseToken(lastGetTok.GotTok.IDToken); err == nil && !pt.Expiration().IsZero() {
+			s.violate("C11", "the stored tokens are expired and the session holds a refresh token, but no refresh exchange was attempted", map[string]any{"request": q, "stored": lastGetTok.GotTok})
+		}
 	}
 	// C11: the merged result of a refresh: new values replace old, omitted values are kept
 	if len(o.IDP) == 1 && o.IDP[0].Form.Get("grant_type") == "refresh_token" && len(setToks) == 1 && lastGetTok != nil && lastGetTok.GotTok != nil && q.IDP.Kind == "body" {
